@@ -21,7 +21,7 @@ static volatile long last_ret[NP];
 /* the library-side entry points of the verification runtime (only the level-F ones matter here) */
 void myth_verif_worker(int r){ (void)r; } void myth_verif_regq(int r, const void *q){ (void)r; (void)q; } int myth_verif_qrank(const void *q){ (void)q; return 0; }
 void myth_verif_point(int id){ (void)id; } void myth_verif_spin(int id){ (void)id; } void myth_verif_idle(void){ }
-void myth_verif_ev(const char *n, int k, ...){ (void)n; (void)k; } void myth_verif_evz(const char *n, int k, ...){ (void)n; (void)k; }
+void myth_verif_ev(const char *n, int k, ...){ (void)n; (void)k; } void myth_verif_evz(const char *n, int k, ...){ (void)n; (void)k; } void myth_verif_evzk(const char *n, int z, int k, ...){ (void)n; (void)z; (void)k; }
 void myth_verif_evlock(const char *n, const void *l){ (void)n; (void)l; }
 long myth_verif_id(int ns, const void *p){ (void)ns; return (long)p; } long myth_verif_id_alias(int ns, const void *k, const void *a){ (void)ns; (void)a; return (long)k; }
 long myth_verif_addr(const void *p){ return (long)p; } int myth_verif_choose(int lo, int hi){ (void)lo; (void)hi; return -1; }
